@@ -7,7 +7,7 @@ import urllib.parse
 
 import httpx
 
-from .fakes3 import Captured, _Body
+from .fakes3 import Captured, _Body, read_exc
 
 API = 'https://api001.fakeb2.test'
 DL = 'https://f001.fakeb2.test'
@@ -80,7 +80,7 @@ class FakeB2(httpx.AsyncBaseTransport):
         if fault.get('at') == 'request-body':
             raise httpx.WriteError('injected: connection dropped after the body was sent')
         if fault.get('at') == 'before-response':
-            raise httpx.ReadError('injected: connection dropped before the response')
+            raise read_exc(fault)('injected: connection dropped before the response')
         if fault.get('at') == 'status':
             hdrs = {}
             if fault.get('retry_after') is not None:
@@ -171,7 +171,7 @@ class FakeB2(httpx.AsyncBaseTransport):
             if request.method == 'HEAD':
                 return httpx.Response(200, headers={'content-length': str(len(data))}, request=request)
             fa = fault.get('after') if fault.get('at') == 'response-body' else None
-            return httpx.Response(200, headers={'content-length': str(len(data))}, stream=_Body(data, self.resp_piece, fa),
+            return httpx.Response(200, headers={'content-length': str(len(data))}, stream=_Body(data, self.resp_piece, fa, read_exc(fault)),
                                   request=request)
         return self._json(request, 400, {'status': 400, 'code': 'bad_request', 'message': f'unknown call {path}'})
 
